@@ -66,6 +66,7 @@ type Contract struct {
 	File     string
 	Line     int
 	Ghosts   []string // ghost statements: "name = expr" executed at exit (unused for now)
+	Uses     []string // callback contracts: caller variables visible to the contract
 }
 
 type GhostDecl struct {
@@ -249,6 +250,8 @@ func (ss *SpecSet) parseFile(path string, dep bool) error {
 			switch word {
 			case "params":
 				cur.Params = splitLocs(rest)
+			case "uses":
+				cur.Uses = splitLocs(rest)
 			case "results":
 				cur.Results = splitLocs(rest)
 			case "requires", "ensures", "cover":
